@@ -4,8 +4,8 @@ from vlib import Case, hx, unhx
 
 HARNESS = "rx_driver"
 LEAN_MODULES = ["ViaProofs.C13"]
-LEMMA_MODULES = []
-REQUIRED_THEOREMS = ["Via.C13", "Via.C13_refuse_when_blank"]
+LEMMA_MODULES = ['ViaProofs.ConnLemmas']
+REQUIRED_THEOREMS = ['Via.C13', 'Via.C13_refuse_when_blank']
 LEVEL = "proof"
 RULE = ("every header string over {CR,LF,'a',':'} up to a length bound (exhaustive) plus random strings over all bytes, "
         "each through tx_response::is_valid/message with status 200/204/100 and through add_header(name,value); "
